@@ -635,6 +635,9 @@ type helperCase struct {
 	// CloseEarly-1 is the number of items after which the consumer of an
 	// iterator-style helper calls Close without reading the rest (0: reads all)
 	CloseEarly int `json:"close_early,omitempty"`
+	// HookCancel: yield point at which the helper's context is cancelled from
+	// inside the library's yield
+	HookCancel string `json:"hook_cancel,omitempty"`
 }
 
 func genHelperCase(r *rand.Rand, i int) *helperCase {
@@ -679,6 +682,9 @@ func genHelperCase(r *rand.Rand, i int) *helperCase {
 	}
 	if round >= 1 && r.Intn(4) == 0 {
 		hc.CloseEarly = 1 + r.Intn(3)
+	}
+	if round >= 1 && r.Intn(4) == 0 {
+		hc.HookCancel = []string{"serve.handoff", "serve.handoff", "serve.handoff", "serve.lookup", "req.wait", "req.done"}[r.Intn(6)]
 	}
 	return hc
 }
@@ -833,7 +839,7 @@ func runHelperCase(c *core.Case, hc *helperCase) {
 		c.Notef("unknown helper %s", hc.Helper)
 		return
 	}
-	e, err := newEnv(c)
+	e, err := newEnv(c, envOpts{hookCancel: hc.HookCancel})
 	if err != nil {
 		c.Count("setup_failed", 1)
 		return
@@ -842,6 +848,9 @@ func runHelperCase(c *core.Case, hc *helperCase) {
 	lastSentinel := ""
 	silent := false // the peer has given its last answer
 	unroutable := false
+	if hc.HookCancel != "" {
+		c.Count("hook_cancel_armed:"+hc.HookCancel, 1)
+	}
 	e.tag = ownerOf(h.name)
 	e.closeEarly = hc.CloseEarly - 1
 	e.mu.Lock()
@@ -936,6 +945,7 @@ func runHelperCase(c *core.Case, hc *helperCase) {
 	}
 	e.finish(hc.Close)
 	e.checkServeNil()
+	e.countHook()
 
 	// report
 	e.mu.Lock()
